@@ -54,6 +54,8 @@ Proof.
   - destruct Hi as [iu il im]; constructor; cbn [set_maps a_memo a_maps]; auto.
 Qed.
 
+Ltac splits := repeat match goal with |- _ /\ _ => split end.
+
 Definition ctx_ok (A : ast) (u : uid) (c : ctx) : Prop :=
   (forall w, In w (c_uses c) -> In (w, u) (users_of (a_maps A))) /\
   (forall s, In s (c_missing c) -> In (s, u) (missing (a_maps A))) /\
@@ -61,7 +63,7 @@ Definition ctx_ok (A : ast) (u : uid) (c : ctx) : Prop :=
 
 Lemma ctx_ok_ext : forall A A' u c, ext A A' -> ctx_ok A u c -> ctx_ok A' u c.
 Proof.
-  intros A A' u c [m iu il im] [H1 [H2 H3]]; repeat split; intros; auto.
+  intros A A' u c [m iu il im] [H1 [H2 H3]]; unfold ctx_ok; splits; intros; auto.
 Qed.
 
 Lemma memo_get_set_same : forall A v e, memo_get (a_memo (memo_set A v e)) v = Some e.
@@ -118,11 +120,10 @@ Section OneUnit.
     unfold use_unit. destruct (mem_uid v (c_uses c)) eqn:Hm.
     - apply mem_uid_In in Hm.
       destruct (Hget v ev A Hdv HA Hsub) as [A' [Hg [Hmemo [HA' Hext]]]].
-      rewrite Hg. exists A', c; repeat split; try assumption.
-      + eapply ctx_ok_ext; eassumption.
-      + destruct Hext as [_ iu _ _]; apply iu. destruct Hc as [H1 _]; apply H1; assumption.
-      + eapply ctx_ok_ext; eassumption.
-      + eapply ctx_ok_ext; eassumption.
+      rewrite Hg. exists A', c. split; [reflexivity|].
+      assert (Hc' : ctx_ok A' u c) by (eapply ctx_ok_ext; eassumption).
+      splits; try assumption; try reflexivity.
+      destruct Hext as [_ iu _ _]; apply iu. destruct Hc as [H1 _]; apply H1; assumption.
     - destruct (make_use_of_spec (a_maps A) u v) as [all [Hmu Hall]]. rewrite Hmu.
       set (E' := add_edge (v, u) (users_of (a_maps A))) in *.
       assert (HE' : forall a b, In (a, b) E' -> sub W a b).
@@ -150,7 +151,8 @@ Section OneUnit.
       assert (Hvu : In (v, u) (users_of (a_maps A'))).
       { destruct Hext as [_ iu _ _]; apply iu; cbn [set_maps a_maps M' users_of].
         apply add_edge_In; left; reflexivity. }
-      repeat split; try assumption; cbn [c_uses c_missing c_liball].
+      splits; try assumption; try reflexivity.
+      unfold ctx_ok; cbn [c_uses c_missing c_liball]; splits.
       + intros w [Hw|Hw]; [subst; assumption|].
         destruct Hext' as [_ iu _ _]; apply iu; destruct Hc as [H1 _]; apply H1; assumption.
       + intros s Hs; destruct Hext' as [_ _ _ im]; apply im; destruct Hc as [_ [H2 _]]; apply H2; assumption.
@@ -167,8 +169,9 @@ Section OneUnit.
       /\ c_missing c' = c_missing c /\ c_liball c' = c_liball c.
   Proof.
     induction vs as [|v vs IH]; intros A c acc Hvs HA Hc; cbn [all_loop].
-    - exists A, c; cbn [map]; rewrite app_nil_r; repeat split; auto using ext_refl.
-      intros v [].
+    - exists A, c; cbn [map]; rewrite app_nil_r.
+      split; [reflexivity|]. split; [assumption|]. split; [apply ext_refl|]. split; [assumption|].
+      split; [intros v []|]. split; reflexivity.
     - destruct (Hvs v (or_introl eq_refl)) as [ev [Hdv Hin]].
       destruct (use_unit_sim A c v ev Hdv Hin HA Hc) as [A1 [c1 [Hu [HA1 [Hext1 [Hc1 [Hvu [Hm1 Hl1]]]]]]]].
       rewrite Hu.
@@ -179,9 +182,9 @@ Section OneUnit.
       rewrite Hl. exists A', c'; split.
       + cbn [rev map]. rewrite <- app_assoc. cbn [app].
         unfold resd at 2, getd_of. rewrite Hdv. reflexivity.
-      + repeat split; try assumption; try congruence.
-        * eapply ext_trans; eassumption.
-        * intros w [Hw|Hw]; [subst w; destruct Hext' as [_ iu _ _]; apply iu; assumption | apply Hvs'; assumption].
+      + split; [assumption|]. split; [eapply ext_trans; eassumption|]. split; [assumption|].
+        split; [|split; congruence].
+        intros w [Hw|Hw]; [subst w; destruct Hext' as [_ iu _ _]; apply iu; assumption | apply Hvs'; assumption].
   Qed.
 
   Lemma answer_sim : forall A c q a,
@@ -200,32 +203,31 @@ Section OneUnit.
         inversion Hg; subst rv; clear Hg.
         assert (Hin : In v (trace_units (snd eu))) by (apply Hunits; left; reflexivity).
         destruct (use_unit_sim A c v ev Hdv Hin HA Hc) as [A1 [c1 [Hu [HA1 [Hext1 [Hc1 [Hvu _]]]]]]].
-        rewrite Hu, Hcirc. exists A1, c1; repeat split; try assumption.
-        intros w [Hw|[]]; subst; assumption.
+        rewrite Hu, Hcirc. exists A1, c1.
+        split; [reflexivity|]. split; [assumption|]. split; [assumption|]. split; [assumption|].
+        split; [|exact I]. cbn [snd answer_units]. intros w [Hw|[]]; subst; assumption.
       + inversion Hden; subst a; clear Hden.
         unfold register_missing. destruct (mem_slot s (c_missing c)) eqn:Hm.
-        * apply mem_slot_In in Hm. exists A, c; repeat split; auto using ext_refl; try (apply Hc).
-          -- intros v [].
-          -- destruct Hc as [_ [H2 _]]; apply H2; assumption.
+        * apply mem_slot_In in Hm. exists A, c.
+          split; [reflexivity|]. split; [assumption|]. split; [apply ext_refl|]. split; [assumption|].
+          split; [intros v [] | destruct Hc as [_ [H2 _]]; apply H2; assumption].
         * set (M' := make_use_of_missing_unit (a_maps A) u s).
           assert (Hincl : maps_incl (a_maps A) M').
           { constructor; cbn [M' make_use_of_missing_unit users_of users_all missing]; try apply incl_refl.
             intros e He; apply add_mpair_In; right; assumption. }
           destruct (good_set_maps W A M' HA Hincl) as [HA1 Hext1].
           { intros x y Hxy; left; exact Hxy. }
-          eexists _, _; split; [reflexivity|]. repeat split; try assumption; cbn [c_uses c_missing c_liball].
-          -- intros w Hw; destruct Hext1 as [_ iu _ _]; apply iu; destruct Hc as [H1 _]; apply H1; assumption.
-          -- intros s' [Hs'|Hs'].
-             ++ subst s'; cbn [set_maps a_maps M' make_use_of_missing_unit missing].
-                apply add_mpair_In; left; reflexivity.
-             ++ destruct Hext1 as [_ _ _ im]; apply im; destruct Hc as [_ [H2 _]]; apply H2; assumption.
-          -- intros l Hl; destruct Hext1 as [_ _ il _]; apply il; destruct Hc as [_ [_ H3]]; apply H3; assumption.
-          -- intros v [].
-          -- cbn [set_maps a_maps M' make_use_of_missing_unit missing].
-             apply add_mpair_In; left; reflexivity.
+          assert (Hnew : In (s, u) (missing (a_maps (set_maps A M')))).
+          { cbn [set_maps a_maps M' make_use_of_missing_unit missing]. apply add_mpair_In; left; reflexivity. }
+          eexists _, _. split; [reflexivity|]. split; [assumption|]. split; [assumption|]. split.
+          -- pose proof (ctx_ok_ext _ _ _ _ Hext1 Hc) as [H1 [H2 H3]].
+             unfold ctx_ok; cbn [c_uses c_missing c_liball]. split; [assumption|]. split; [|assumption].
+             intros s' [Hs'|Hs']; [subst s'; assumption | apply H2; assumption].
+          -- split; [intros v [] | assumption].
     - destruct (l =? u_lib u) eqn:Hl.
-      + inversion Hden; subst a. exists A, c; repeat split; auto using ext_refl; try apply Hc.
-        intros v [].
+      + inversion Hden; subst a. exists A, c.
+        split; [reflexivity|]. split; [assumption|]. split; [apply ext_refl|]. split; [assumption|].
+        split; [intros v [] | exact I].
       + destruct (den_all (getd_of g0 W) (primaries W l) []) as [[vs b]|] eqn:Hd; [|discriminate].
         assert (Hb : b = true).
         { eapply den_all_clean_true; [|eassumption].
@@ -234,21 +236,22 @@ Section OneUnit.
         destruct (den_all_complete _ _ _ _ Hd) as [Hvs Hall]. cbn [rev app] in Hvs.
         assert (Hvs' : vs = map (fun v => (v, resd g0 W v)) (primaries W l)).
         { rewrite Hvs; apply map_ext; intros v; unfold resd; reflexivity. }
+        assert (Hfst : map fst vs = primaries W l).
+        { rewrite Hvs', map_map; cbn [fst]; apply map_id. }
         assert (Hpre : forall v, In v (primaries W l) ->
                   exists ev, den g0 W v = Some ev /\ In v (trace_units (snd eu))).
         { intros v Hv. destruct (Hall v Hv) as [rv [Hrv _]]. unfold getd_of in Hrv.
           destruct (den g0 W v) as [ev|] eqn:Hdv; [|discriminate].
           exists ev; split; [reflexivity|]. apply Hunits. cbn [answer_units].
-          rewrite Hvs', map_map; cbn [fst]. rewrite map_id; assumption. }
+          rewrite Hfst; assumption. }
         destruct (all_loop_sim (primaries W l) A c [] Hpre HA Hc)
           as [A1 [c1 [Hloop [HA1 [Hext1 [Hc1 [Hedges [Hm1 Hl1]]]]]]]].
         rewrite Hloop. cbn [rev app]. rewrite <- Hvs'.
-        assert (Hau : forall v, In v (answer_units (AAll vs)) -> In v (primaries W l)).
-        { intros v Hv; cbn [answer_units] in Hv. rewrite Hvs', map_map in Hv; cbn [fst] in Hv.
-          rewrite map_id in Hv; assumption. }
         unfold register_liball. destruct (mem_lib l (c_liball c1)) eqn:Hm.
-        * apply mem_lib_In in Hm. exists A1, c1; repeat split; try assumption.
-          -- intros v Hv; apply Hedges; apply Hau; assumption.
+        * apply mem_lib_In in Hm. exists A1, c1.
+          split; [reflexivity|]. split; [assumption|]. split; [assumption|]. split; [assumption|].
+          split.
+          -- cbn [snd answer_units]. rewrite Hfst. exact Hedges.
           -- destruct Hc1 as [_ [_ H3]]; apply H3; assumption.
         * set (M' := make_use_of_library_all (a_maps A1) u l).
           assert (Hincl : maps_incl (a_maps A1) M').
@@ -256,20 +259,18 @@ Section OneUnit.
             intros e He; apply add_lpair_In; right; assumption. }
           destruct (good_set_maps W A1 M' HA1 Hincl) as [HA2 Hext2].
           { intros x y Hxy; left; exact Hxy. }
-          eexists _, _; split; [reflexivity|].
-          repeat split; try assumption; cbn [c_uses c_missing c_liball].
-          -- eapply ext_trans; eassumption.
-          -- intros w Hw; destruct Hext2 as [_ iu _ _]; apply iu; destruct Hc1 as [H1 _]; apply H1; assumption.
-          -- intros s Hs; destruct Hext2 as [_ _ _ im]; apply im; destruct Hc1 as [_ [H2 _]]; apply H2; assumption.
-          -- intros l' [Hl'|Hl'].
-             ++ subst l'; cbn [set_maps a_maps M' make_use_of_library_all users_all].
-                apply add_lpair_In; left; reflexivity.
-             ++ destruct Hext2 as [_ _ il _]; apply il; destruct Hc1 as [_ [_ H3]]; apply H3; assumption.
-          -- intros v Hv; destruct Hext2 as [_ iu _ _]; apply iu; apply Hedges; apply Hau; assumption.
-          -- cbn [set_maps a_maps M' make_use_of_library_all users_all].
-             apply add_lpair_In; left; reflexivity.
-    - inversion Hden; subst a. exists A, c; repeat split; auto using ext_refl; try apply Hc.
-      intros v [].
+          assert (Hnew : In (l, u) (users_all (a_maps (set_maps A1 M')))).
+          { cbn [set_maps a_maps M' make_use_of_library_all users_all]. apply add_lpair_In; left; reflexivity. }
+          eexists _, _. split; [reflexivity|]. split; [assumption|].
+          split; [eapply ext_trans; eassumption|]. split.
+          -- pose proof (ctx_ok_ext _ _ _ _ Hext2 Hc1) as [H1 [H2 H3]].
+             unfold ctx_ok; cbn [c_uses c_missing c_liball]. split; [assumption|]. split; [assumption|].
+             intros l' [Hl'|Hl']; [subst l'; assumption | apply H3; assumption].
+          -- split; [|assumption]. cbn [snd answer_units]. rewrite Hfst.
+             intros v Hv; destruct Hext2 as [_ iu _ _]; apply iu; apply Hedges; assumption.
+    - inversion Hden; subst a. exists A, c.
+      split; [reflexivity|]. split; [assumption|]. split; [apply ext_refl|]. split; [assumption|].
+      split; [intros v [] | exact I].
   Qed.
 
   Lemma run_sim : forall p A c tr,
@@ -279,7 +280,7 @@ Section OneUnit.
       /\ good W A' /\ ext A A' /\ Forall (reg_event (a_maps A') u) (snd eu).
   Proof.
     induction p as [circ tag|q k IH]; intros A c tr Hden HA Hc Hreg; cbn [den_run run] in *.
-    - inversion Hden; subst eu. exists A; repeat split; auto using ext_refl.
+    - inversion Hden; subst eu. exists A; splits; auto using ext_refl.
       cbn [snd]. apply Forall_rev; assumption.
     - destruct (den_answer W (getd_of g0 W) u q) as [a|] eqn:Ha; [|discriminate].
       assert (Hunits : forall v, In v (answer_units a) -> In v (trace_units (snd eu))).
@@ -291,7 +292,7 @@ Section OneUnit.
       rewrite Hans.
       destruct (IH a A1 c1 ((q, a) :: tr) Hden HA1 Hc1) as [A' [Hrun [HA' [Hext' Hreg']]]].
       { constructor; [assumption|]. eapply Forall_reg_mono; [apply ext_maps_incl|]; eassumption. }
-      exists A'; repeat split; try assumption. eapply ext_trans; eassumption.
+      exists A'; splits; try assumption. eapply ext_trans; eassumption.
   Qed.
 End OneUnit.
 
@@ -306,9 +307,9 @@ Proof.
   destruct f as [|f]; [lia|].
   cbn [get_analysis].
   destruct (memo_get (a_memo A) v) as [e|] eqn:Hm.
-  - destruct HA as [gm ge gr]. destruct (gm v e Hm) as [g' Hd'].
+  - destruct (g_memo _ _ HA v e Hm) as [g' Hd'].
     assert (e = ev) by (eapply den_det; eassumption). subst e.
-    exists A; repeat split; auto using ext_refl.
+    exists A. split; [reflexivity|]. split; [assumption|]. split; [assumption | apply ext_refl].
   - assert (Hdv : den (S g) W v <> None) by (rewrite Hd; discriminate).
     assert (Hns : mem_uid v stk = false).
     { apply mem_uid_false; intros Hin. exact (sub_irrefl W v (S g) Hdv (Hstk v Hin)). }
@@ -323,7 +324,7 @@ Proof.
       intros x [Hx|Hx]; [subst; assumption | eapply sub_trans; [eassumption | apply Hstk; assumption]]. }
     destruct (run_sim W Hclean v (S g) ev Hd g (get_analysis f W (v :: stk)) Hget p A empty_ctx [] Hd2 HA)
       as [A' [Hrun [HA' [Hext Hreg]]]].
-    { repeat split; intros x []. }
+    { unfold ctx_ok; cbn [empty_ctx c_uses c_missing c_liball]; splits; intros x []. }
     { constructor. }
     rewrite Hrun. exists (memo_set A' v ev); split; [reflexivity|]. split; [apply memo_get_set_same|].
     assert (Hm' : forall x e, memo_get (a_memo A) x = Some e -> x <> v) by (intros x e Hx ->; congruence).
@@ -347,13 +348,13 @@ Theorem analyse_units_sim : forall W, clean W ->
     /\ forall x, In x us -> memo_get (a_memo A') x <> None.
 Proof.
   intros W Hclean; induction us as [|v us IH]; intros A HA Hus; cbn [analyse_units].
-  - exists A; repeat split; auto using ext_refl. intros x [].
+  - exists A; splits; auto using ext_refl.
   - destruct (clean_unit_den W v Hclean (Hus v (or_introl eq_refl))) as [ev [Hd _]].
     destruct (get_analysis_sim W Hclean (length W) v ev Hd (S (length W)) [] A) as [A1 [Hg [Hm [HA1 Hext1]]]];
       [lia | assumption | intros x [] |].
     rewrite Hg.
     destruct (IH A1 HA1) as [A' [Hrec [HA' [Hext' Hall]]]]; [intros x Hx; apply Hus; right; assumption|].
-    exists A'; repeat split; try assumption.
+    exists A'; splits; try assumption.
     + eapply ext_trans; eassumption.
     + intros x [Hx|Hx]; [subst x | apply Hall; assumption].
       destruct Hext' as [xm _ _ _]. rewrite (xm _ _ Hm); discriminate.
